@@ -881,7 +881,7 @@ def c09_followup(cases, recs):
 
 
 PROPS["C09"] = {
-    "theorems": ["visit_identity", "visitKids_identity", "kindHook_identity", "exprHook_jsxfree", "C09_module_identity"],
+    "theorems": ["visit_identity", "visitKids_identity", "kindHook_identity", "exprHook_jsxfree", "C09_module_identity", "kindHook_identity_rt", "visit_identity_rt", "visitKids_identity_rt", "collectTypes_frame", "C09_module_identity_all_options"],
     "cases": c09_cases,
     "followup": c09_followup,
     "followup_clause": "not-idempotent",
